@@ -94,7 +94,7 @@ struct thr {
 	struct lnode *batch[64];
 	int nbatch, batch_lim;
 	struct lnode *spare;
-	uint64_t sigmask_seen;
+	uint64_t sigmask_seen[8];
 	/* statistics of the round (summed by main after join) */
 	uint64_t st_attempts, st_lost, st_won, st_walks, st_walk_nodes, st_validations, st_match_delays,
 		 st_res_lookups, st_calls, st_nontrivial_calls, st_sync, st_callrcu, st_guard_nodes;
@@ -401,10 +401,12 @@ static void own(struct thr *t, struct lnode *n, int op, uint64_t others_before)
 				nothers += ((others >> (b * 8)) & 0xff) != 0;
 			int rz = VP_LOAD(g_explicit_active) || VP_LOAD(g_worker_active);
 			unsigned sid = (unsigned) op | (kinds << 2) | ((unsigned) rz << 5) | ((unsigned) (nothers > 2 ? 2 : nothers) << 6);
-			if (!(t->sigmask_seen & (1ULL << (sid & 63)))) {
-				t->sigmask_seen |= 1ULL << (sid & 63);
-				vp_sig_add("own:%s:winner=%s:racing=%s%s%s:n=%d:resize=%d:%s/%s", g_cfgname, op_names[op],
+			sid &= 511;
+			if (!(t->sigmask_seen[sid >> 6] & (1ULL << (sid & 63)))) {
+				t->sigmask_seen[sid >> 6] |= 1ULL << (sid & 63);
+				vp_sig_add("own:%s:winner=%s:racing=%s%s%s%s:n=%d:resize=%d:%s/%s", g_cfgname, op_names[op],
 					   (kinds & 1) ? "del," : "", (kinds & 2) ? "replace," : "", (kinds & 4) ? "add_replace," : "",
+					   kinds ? "" : "seen-by-loser",
 					   nothers > 2 ? 3 : nothers, rz, mm_names[g_rc.mm], ak_names[g_rc.ak]);
 				vp_sample_add("cfg=%s round=%llu {%s}: node id=%llx key=%llx obtained by %s (thread %d) while %d other removal attempt(s) "
 					      "[%s%s%s] were in flight on it; resize active=%d; every loser must see a negative return",
@@ -594,14 +596,16 @@ static int rz_close(unsigned long final_size, unsigned long requested)
 		__atomic_fetch_add(&tot_partitioned_calls, 1, __ATOMIC_RELAXED);
 	if (nontrivial && g_prop == 9) {
 		const char *dir = z->grew && z->shrank ? "both" : z->grew ? "grow" : z->shrank ? "shrink" : "none";
+		char reqbuf[40] = "";
+		if (!z->lazy)
+			snprintf(reqbuf, sizeof(reqbuf), "(%lu)", requested);
 		vp_sig_add("rz:%d>%d:%s:%s/%s:%s:%s", order_of(z->from), order_of(z->cur), dir, mm_names[g_rc.mm], ak_names[g_rc.ak],
 			   z->lazy ? "lazy" : "explicit", z->partitioned ? "partitioned" : "single");
 		vp_sample_add("cfg=%s round=%llu {%s}: %s resize%s size %lu -> %lu (%s, %s, %llu loop iteration(s)) overlapped %llu update(s) and "
 			      "%llu lookup(s) of other threads", g_cfgname, (unsigned long long) g_round, g_rc.str,
-			      z->lazy ? "lazy (worker)" : "explicit cds_lfht_resize", z->lazy ? "" : "(request below)", z->from, z->cur, dir,
+			      z->lazy ? "lazy (worker)" : "explicit cds_lfht_resize", reqbuf, z->from, z->cur, dir,
 			      z->partitioned ? "partitioned" : "single-thread", (unsigned long long) z->iters,
 			      (unsigned long long) du, (unsigned long long) dl);
-		(void) requested;
 	}
 	return nontrivial;
 }
